@@ -36,6 +36,9 @@ NP_OF = {
     'C03': [('StateTrajHS', ['_estimate_markov_model']), ('MsmNorm', ['row_normalize_matrix'])],
     'C09': [('MsmTests', ['_calc_times'])],
     'C19': [('PlotCkTest', ['_split_array'])],
+    'C05': [('MdCoringApi', ['dynamical_coring'])],
+    'C06': [('MdTimesApi', ['estimate_waiting_times', 'estimate_paths'])],
+    'C13': [('MdCompareApi', ['compare_discretization_symmetric', 'compare_discretization_directed'])],
     'C07': [('MsmCummat', ['_get_cummat'])],
     'C08': [('MsmCummat', ['_get_cummat']), ('MsmTimes', ['estimate_times_list', 'estimate_times_hist']), ('StateTrajBase', ['state_to_idx'])],
 }
@@ -45,7 +48,8 @@ for _pid, _mods in NP_OF.items():
 SOURCE_OF = {'MsmMsm': 'msm/msm.py', 'MdCorrections': 'md/corrections.py', 'MdTimescales': 'md/timescales.py',
              'MsmTimescales': 'msm/timescales.py', 'MdComparison': 'md/comparison.py', 'UtilsUtils': 'utils/_utils.py',
              'UtilsTests': 'utils/tests.py', 'MsmNorm': 'msm/msm.py', 'PlotCkTest': 'plot/_ck_test.py', 'MsmTests': 'msm/tests.py',
-             'StateTrajHS': 'statetraj.py', 'MsmCummat': 'msm/timescales.py', 'MsmTimes': 'msm/timescales.py', 'StateTrajBase': 'statetraj.py'}
+             'StateTrajHS': 'statetraj.py', 'MsmCummat': 'msm/timescales.py', 'MsmTimes': 'msm/timescales.py', 'StateTrajBase': 'statetraj.py',
+             'MdCompareApi': 'md/comparison.py', 'MdTimesApi': 'md/timescales.py', 'MdCoringApi': 'md/corrections.py'}
 ATOL = 1e-8
 G = 1 << 53
 
@@ -192,6 +196,28 @@ def gen_cases(module, kernel, rng, n):
             yield {'k': kernel, 'args': [arr, rng.choice([0, 1, 1, 2, 3, 4, 5, 6, 7, 12, 30])], 'mode': 'py'}
         elif module == 'MsmTests':
             yield {'k': kernel, 'args': [rng.choice([0, 1, 1, 2, 3, 4, 5, 7, 10, 25]), rng.randint(0, 80)], 'mode': 'py'}
+        elif module in ('MdCompareApi', 'MdTimesApi', 'MdCoringApi'):
+            ns_ = rng.randint(1, 5)
+            labs = sorted(rng.sample(range(-6, 30), ns_))
+            trajs = [[labs[i] for i in _sticky(rng, rng.randint(1, 14), ns_)] for _ in range(rng.randint(1, 3))]
+            if module == 'MdCompareApi':
+                other = [[(x * 7 + 3) % rng.choice([2, 3, 4]) for x in t] for t in trajs]
+                yield {'k': kernel, 'args': None, 't1': trajs, 't2': other, 'mode': 'py'}
+            elif module == 'MdTimesApi':
+                occ = sorted({x for t in trajs for x in t})
+                S = [rng.choice(occ)]
+                F = [rng.choice([o for o in occ if o not in S] or [occ[0] + 50])]
+                r_ = rng.random()
+                if r_ < 0.1:
+                    F = F + S
+                elif r_ < 0.2:
+                    S = S + [max(occ) + 7]
+                elif r_ < 0.4 and len(occ) > 2:
+                    S = S + [rng.choice([o for o in occ if o not in F])]
+                yield {'k': kernel, 'args': None, 'trajs': trajs, 'S': S, 'F': F, 'mode': 'py'}
+            else:
+                yield {'k': kernel, 'args': None, 'trajs': trajs, 'lag': rng.choice([-1, 0, 1, 2, 2, 3, 3, 4]), 'iterative': rng.random() < 0.5,
+                       'lumped': rng.random() < 0.08, 'mode': 'py'}
         elif module == 'StateTrajBase':
             labs = sorted(rng.sample(range(-6, 30), rng.randint(1, 6)))
             yield {'k': kernel, 'args': [labs, rng.choice(labs + [rng.randint(-8, 32)])], 'mode': 'py'}
@@ -326,6 +352,32 @@ def real_one(module, case):
         fn = None
     elif module == 'StateTrajBase':
         inputs, fn = None, None
+    elif module in ('MdCompareApi', 'MdTimesApi', 'MdCoringApi'):
+        import msmhelper as mh
+        flag = bool(numba.config.DISABLE_JIT)
+        fn = None
+        try:
+            if module == 'MdCompareApi':
+                o1 = mh.StateTraj([np.array(t, dtype=np.int64) for t in case['t1']])
+                o2 = mh.StateTraj([np.array(t, dtype=np.int64) for t in case['t2']])
+                meth = 'symmetric' if case['k'].endswith('symmetric') else 'directed'
+                inputs = {'args': [[int(x) for x in o1.index_trajs_flatten], int(o1.nstates), [int(x) for x in o2.index_trajs_flatten], int(o2.nstates), flag]}
+                case = dict(case, _run=lambda: core.rat_str(float(mod._compare_discretization(o1, o2, meth))))
+            elif module == 'MdTimesApi':
+                o1 = mh.StateTraj([np.array(t, dtype=np.int64) for t in case['trajs']])
+                inputs = {'args': [[int(x) for x in o1.states], [[int(x) for x in t] for t in o1.trajs], case['S'], case['F'], flag]}
+                if case['k'] == 'estimate_waiting_times':
+                    case = dict(case, _run=lambda: [int(x) for x in mod.estimate_waiting_times(o1, case['S'], case['F'])])
+                else:
+                    case = dict(case, _run=lambda: [[[int(x) for x in k_], [int(x) for x in v_]] for k_, v_ in mod.estimate_paths(o1, case['S'], case['F']).items()])
+            else:
+                arrs = [np.array(t, dtype=np.int64) for t in case['trajs']]
+                o1 = mh.LumpedStateTraj(arrs, arrs) if case['lumped'] else mh.StateTraj(arrs)
+                inputs = {'args': [[int(x) for x in o1.states], [[int(x) for x in t] for t in o1.index_trajs], [[int(x) for x in t] for t in o1.trajs],
+                                   bool(case['lumped']), case['lag'], bool(case['iterative']), flag]}
+                case = dict(case, _run=lambda: [[int(x) for x in t] for t in mod.dynamical_coring(o1, case['lag'], iterative=case['iterative']).trajs])
+        except Exception as e:  # noqa
+            return {'skip': core.err_name(e)}
     elif module == 'MsmTimes':
         # `_estimate_times` with a stub estimator; the three oracles (start choice, cumulative matrix, estimator) are recorded
         import msmhelper as mh
@@ -458,7 +510,7 @@ def real_one(module, case):
         if module == 'StateTrajBase':
             import msmhelper as mh
             return int(mh.StateTraj([np.array(a[0], dtype=np.int64)]).state_to_idx(a[1]))
-        if module == 'MsmTimes':
+        if module in ('MsmTimes', 'MdCompareApi', 'MdTimesApi', 'MdCoringApi'):
             return case['_run']()
         if module == 'MsmCummat':
             # the function estimates its matrix from trajectories: feed the chosen matrix through a stub of the estimator
@@ -611,6 +663,8 @@ def same(case, real, gen):
                 if abs(fx - fy) > Fraction(1, 10 ** 14):
                     return False
         return True
+    if k.startswith('compare_discretization_'):
+        return abs(Fraction(r) - Fraction(g)) <= Fraction(1, 10 ** 12)
     if k == 'estimate_times_hist':
         return r[1] == g[1] and len(r[0]) == len(g[0]) and all(abs(Fraction(x) - Fraction(y)) <= Fraction(1, 10 ** 15) for x, y in zip(r[0], g[0]))
     if k == 'equilibrium_population':
